@@ -14,15 +14,18 @@ inductive AuthRes
   | badKey                       -- `GenerateSharedSecret` failed (unmarshal error, before registration)
 deriving DecidableEq, Repr
 
+/-- the part of `AuthFirstPacket` after `processFirstPacket` returned the fragments -/
+def authFrag (C : Crypto) (cache : Replay.Cache) (f : Fragments) (now : Int) : Replay.Cache × AuthRes :=
+  let (c, u) := Replay.register cache (Replay.G.keyOf f.rand) now
+  if u then (c, .replay)
+  else
+    match decryptInfo C f now with
+    | .ok info => (c, .ok info)
+    | .error e => (c, .badDecrypt e)
+
 def authCore (C : Crypto) (sk : Bytes) (cache : Replay.Cache) (rand ct : Bytes) (now : Int) : Replay.Cache × AuthRes :=
   match C.dh sk rand with
   | none => (cache, .badKey)
-  | some secret =>
-    let (c, u) := Replay.register cache (Replay.G.keyOf rand) now
-    if u then (c, .replay)
-    else
-      match decryptInfo C ⟨fit 32 secret, rand, ct⟩ now with
-      | .ok info => (c, .ok info)
-      | .error e => (c, .badDecrypt e)
+  | some secret => authFrag C cache ⟨fit 32 secret, rand, ct⟩ now
 
 end HS
